@@ -258,6 +258,8 @@ func init() {
 	add(t("EVAL.bool", "EVAL", FRead, w("EVAL"), lua("return ARGV[1] == 'x'"), in("0"), v("x")))
 	add(t("EVAL.div", "EVAL", FRead, w("EVAL"), lua("return ARGV[1] / ARGV[2]"), in("0"), n("10"), n("4")))
 	add(t("EVAL.map", "EVAL", FRead, w("EVAL"), lua("return {[ARGV[1] + 0] = 'v', name = ARGV[2]}"), in("0"), n("1.5"), v("x")))
+	add(t("EVAL.func", "EVAL", FRead, w("EVAL"), lua("return tostring"), in("0")))
+	add(t("EVAL.functbl", "EVAL", FRead, w("EVAL"), lua("return {1, tile38.call, 'x'}"), in("0")))
 	add(t("EVALRO", "EVALRO", FRead, w("EVALRO"), lua(ScriptBody), in("1"), k("fleet"), id("truck1")))
 	add(t("EVALNA", "EVALNA", FRead, w("EVALNA"), lua("return ARGV[1] .. ':' .. #KEYS"), in("1"), k("fleet"), v("x")))
 	add(t("EVALSHA", "EVALSHA", FScript, w("EVALSHA"), sha(ScriptSha), in("1"), k("fleet"), id("truck1")))
